@@ -170,6 +170,13 @@ def insert(doc, bad_name, pos, base="A"):
     """Return (faulted document, carriers) or None if not applicable."""
     d = copy.deepcopy(doc)
     kind = pos[0]
+    # in a PAIR of faults the first one may have renamed the path (optional-path-param) or removed what this position names
+    if kind in ("param", "resp", "body", "op", "media2") and (pos[2] not in d["paths"] or pos[1] not in d["paths"][pos[2]]):
+        return None
+    if kind == "itemparam" and (pos[1] not in d["paths"] or len(d["paths"][pos[1]].get("parameters", [])) <= pos[2]):
+        return None
+    if kind in ("prop", "item", "union", "addl") and pos[1] not in d["components"]["schemas"]:
+        return None
     if bad_name in TITLED_BAD and base != "E":
         return None
     if bad_name in BAD_SCHEMAS or bad_name in TITLED_BAD:
